@@ -91,6 +91,8 @@ pub fn positions() -> Vec<Pos> {
         p("update-table", 0, |n, d| qb!(d, Query::update().table(a(n)).value(a("c"), 1))),
         p("update-column", 0, |n, d| qb!(d, Query::update().table(a("t")).value(a(n), 1))),
         p("update-column-with-from", 0, |n, d| qb!(d, Query::update().table(a("t")).value(a(n), 1).from(a("u")).and_where(Expr::col((a("t"), a("c"))).equals((a("u"), a("c")))))),
+        p("update-table-with-from", 0, |n, d| qb!(d, Query::update().table(a(n)).value(a("c"), 1).value(a("b"), 2).from(a("u")).and_where(Expr::col((a(n), a("c"))).equals((a("u"), a("c")))))),
+        p("update-schema.table-with-from", 0, |n, d| qb!(d, Query::update().table((a("s"), a(n))).value(a("c"), 1).from(a("u")))),
         p("update-from-table", 0, |n, d| qb!(d, Query::update().table(a("t")).value(a("c"), 1).from(a(n)))),
         p("update-returning-column", 0, |n, d| qb!(d, Query::update().table(a("t")).value(a("c"), 1).returning(Query::returning().column(a(n))))),
         p("delete-table", 0, |n, d| qb!(d, Query::delete().from_table(a(n)))),
